@@ -682,3 +682,55 @@ Proof.
     destruct (dir_steps_commute sh s d Shutdown _ d0 a _ NE H1 H2) as (s3 & T & _).
     exists s3. exact T.
 Qed.
+
+(* ------------------------------------------------ the proxy always comes to rest *)
+(* Every step of the proxy (any label that is not an endpoint's write/shutdown or
+   the passing of time) strictly decreases a measure: left alone by the endpoints
+   the proxy performs at most `mu s` further steps, after which it is quiet — and
+   then `complete` / `both_closed` say what has been achieved.  (That an enabled
+   step is eventually taken is the Go scheduler's business.) *)
+Definition rank (c : cop) : nat := match c with Idle | Copying => 2 | Flushed => 1 | Done => 0 end.
+Definition dmu (x : dstate) : nat := 2 * length (d_src x) + length (d_buf x) + rank (d_cop x).
+Definition mu (s : state) : nat :=
+  (if s_replied s then 0 else 1) + 3 * length (d_pre (s_ct s)) + dmu (s_ct s) + dmu (s_tc s)
+  + (if s_up s then 0 else 1) + (if s_down s then 0 else 1).
+
+Lemma dstep_decreases sh ok brk x a x' :
+  dstep sh ok brk x a x' -> match a with Write _ | Shutdown => True | _ => (dmu x' < dmu x)%nat /\ d_pre x' = d_pre x end.
+Proof.
+  intro H; inversion H; subst; unfold dmu; simpl; auto.
+  - split; [|reflexivity]. rewrite H5, app_length.
+    assert (length bs <> 0)%nat by (destruct bs; [congruence | simpl; lia]).
+    assert (rank (d_cop x) = 2)%nat by (destruct (d_cop x); simpl in *; try discriminate; reflexivity).
+    rewrite H2. simpl. lia.
+  - split; [|reflexivity].
+    assert (rank (d_cop x) = 2)%nat by (destruct (d_cop x); simpl in *; try discriminate; reflexivity). lia.
+  - split; [|reflexivity]. destruct (d_buf x); [congruence|]. simpl. lia.
+  - split; [|reflexivity]. rewrite H0. simpl. lia.
+  - split; [|reflexivity].
+    assert (rank (d_cop x) = 2)%nat by (destruct (d_cop x); simpl in *; try discriminate; reflexivity). lia.
+Qed.
+
+Lemma mu_note_done a s : mu (note_done a s) = mu s.
+Proof. unfold note_done. destruct a, (s_first s); reflexivity. Qed.
+
+Lemma proxy_step_decreases sh s l s' : step sh s l s' -> is_env l = false -> (mu s' < mu s)%nat.
+Proof.
+  intros H E; inversion H; subst; simpl in E; try discriminate.
+  - unfold mu, reply; simpl. rewrite H0. lia.
+  - unfold mu, drain, upd_drain, dmu; simpl.
+    assert (length (d_pre (s_ct s)) <> 0)%nat by (destruct (d_pre (s_ct s)); [congruence | simpl; lia]).
+    destruct (sh_drain_rereads sh); rewrite ?app_length; lia.
+  - unfold mu, dmu. destruct sd; simpl in *; rewrite H0; simpl; lia.
+  - rewrite mu_note_done. pose proof (dstep_decreases _ _ _ _ _ _ H0) as D.
+    destruct a; try discriminate; destruct D as [D P]; unfold mu; destruct d; simpl in *; rewrite ?P; lia.
+Qed.
+
+Theorem proxy_quiesces sh s tr s' :
+  steps sh s tr s' -> (forall l, In l tr -> is_env l = false) -> (length tr + mu s' <= mu s)%nat.
+Proof.
+  induction 1; intro A; simpl; [lia|].
+  pose proof (proxy_step_decreases _ _ _ _ H (A l (or_introl eq_refl))) as D.
+  assert (forall l0, In l0 tr -> is_env l0 = false) as A' by (intros l0 I; apply A; right; exact I).
+  specialize (IHsteps A'). lia.
+Qed.
